@@ -9,7 +9,9 @@ import (
 )
 
 // White-box accessors for the C04 correspondence driver (mapped into the package by
-// `go build -overlay`; nothing here is part of /repo).
+// `go build -overlay`; nothing here is part of /repo). Only functions without an exported route:
+// certificate bytes are built by the driver's own serializer, parsed with the exported ReadFrom and
+// obtained with the exported Marshal, so no unexported field is touched.
 
 // VerifIssue calls the unexported issue with a chosen type, time and duration.
 func VerifIssue(parent *Certificate, child *Identity, certType CertificateType, issuedAt time.Time, duration time.Duration) (*Certificate, error) {
@@ -20,18 +22,3 @@ func VerifIssue(parent *Certificate, child *Identity, certType CertificateType, 
 func VerifSelfSign(self *Identity, certType CertificateType, keyPair *keys.SigningKeyPair) (*Certificate, error) {
 	return selfSign(self, certType, keyPair)
 }
-
-// VerifRaw returns a copy of the retained bytes.
-func (c *Certificate) VerifRaw() []byte {
-	return append([]byte(nil), c.raw.Bytes()...)
-}
-
-// VerifSetRaw replaces the retained bytes (used to build in-memory certificates whose struct
-// fields were changed after parsing).
-func (c *Certificate) VerifSetRaw(b []byte) {
-	c.raw.Reset()
-	c.raw.Write(b)
-}
-
-// VerifHasKey reports whether a private key was provided.
-func (c *Certificate) VerifHasKey() bool { return c.privateKey != nil }
